@@ -14,6 +14,10 @@ func init() { register("C12", c12) }
 // c12root != "": load the package through a recursive request for this root
 var c12root = ""
 
+// c12viaImporter: another requested package that imports the package is loaded first, so that the
+// package is first seen as a dependency (its tag-excluded files must stay invisible all the same)
+var c12viaImporter = false
+
 type c12expr struct {
 	goBuild string   // text after //go:build
 	legacy  []string // equivalent // +build lines (nil: none written)
@@ -41,6 +45,7 @@ func c12(g *Gen) {
 	for i := 0; i < n; i++ {
 		path := fmt.Sprintf("ex.test/bt%d", i)
 		c12root = ""
+		c12viaImporter = i%3 == 1
 		if i%3 == 2 {
 			// the input is given as root/... and the package sits two levels below the root
 			c12root = fmt.Sprintf("ex.test/btr%d", i)
@@ -112,6 +117,9 @@ func c12(g *Gen) {
 			if c12root != "" {
 				cls = append(cls, "recursive-input")
 			}
+			if c12viaImporter {
+				cls = append(cls, "dependency-first-then-requested")
+			}
 			if len(vis) > 1 {
 				cls = append(cls, "some-file-visible")
 			}
@@ -122,6 +130,7 @@ func c12(g *Gen) {
 		}
 	}
 	c12root = ""
+	c12viaImporter = false
 	c12regen(g)
 }
 
